@@ -708,14 +708,26 @@ class HeapVerifier(vcmod.FunctionVerifier):
 G_FIELDS = ('_sections', '_props', '_parent', '_name', '_id', '_content_type')
 
 
-def g_query(verifier, vc, K=4, L=3):
-    """Ground the VC over refs 1..K and indices 0..L; returns (query text, list of value terms, labels)."""
+G_POOL = ['a', 'b', 'A', 'a b', '',
+          '11111111-1111-4111-8111-111111111111', '22222222-2222-4222-8222-222222222222',
+          '33333333-3333-4333-8333-333333333333', '44444444-4444-4444-8444-444444444444']
+
+
+def g_query(verifier, vc, K=4, L=3, drop=(), pool=False):
+    """Ground the VC over refs 1..K and indices 0..L; returns (query text, list of value terms, labels).
+    drop: prefixes of Inv conjunct names to leave out of the assumed pre-state (a lighter query; the
+    native replay, which checks well-formedness of the pre-state itself, stays the judge)."""
     from .terms import ground, Forall
     ex = verifier.ex
     refdom = [intlit(k) for k in range(1, K + 1)]
     idxdom = [intlit(k) for k in range(0, L + 1)]
     cache = {}
-    asserts = [ground(c, refdom, idxdom, cache) for c in vc.pc]
+    dropped = set()
+    if drop:
+        for n, f in verifier.invb.conjuncts(ex.pre_heap):
+            if any(n.startswith(d) for d in drop):
+                dropped.add(f)
+    asserts = [ground(c, refdom, idxdom, cache) for c in vc.pc if c not in dropped]
     asserts.append(ground(Not(vc.goal), refdom, idxdom, cache))
     pre = ex.pre_heap
     nxt0 = pre.get('next')
@@ -731,6 +743,17 @@ def g_query(verifier, vc, K=4, L=3):
         idv = Select(pre['f:_id'], r)
         scope.append(Implies(And(Is('VStr', idv), App('canon_uuid', BOOL, Acc('sv', idv))),
                              Eq(tm.StrLen(Acc('sv', idv)), intlit(36))))
+        if pool:
+            # finite string domain for names and ids of the pre-state (string search is what makes the
+            # unconstrained query slow); texts of 36 characters stand for uuids and are mapped to real ones
+            # by the replay
+            for fld in ('_id', '_name'):
+                if 'f:' + fld in pre:
+                    fv_ = Select(pre['f:' + fld], r)
+                    scope.append(Implies(Is('VStr', fv_), Or(*[Eq(Acc('sv', fv_), tm.strlit(x)) for x in G_POOL])))
+    if pool:
+        for name, t in verifier.params.items():
+            scope.append(Implies(Is('VStr', t), Or(*[Eq(Acc('sv', t), tm.strlit(x)) for x in G_POOL + ['B', 'ab']])))
     values, labels = [], []
     for name, t in verifier.params.items():
         values.append(t)
@@ -769,6 +792,18 @@ def g_search(verifier, ob, K=4, L=3, timeout_s=30):
     for vc in ob.vcs:
         if vc.result is not None and vc.result[0] == 'unsat':
             continue
+        # first with names/ids/string arguments restricted to a small pool of texts (fast), then unrestricted
+        qp, labels = g_query(verifier, vc, K, L, pool=True)
+        if '(declare-fun str_lower (String) String)' in qp:
+            qp = qp.replace('(declare-fun str_lower (String) String)',
+                            '(define-fun str_lower ((s String)) String (str.to_lower s))')
+            rp = solve.check(qp, min(timeout_s, 60), ('cvc5', 'cvc5-int'), tag='G')
+        else:
+            rp = solve.check(qp, min(timeout_s, 60), ('z3new', 'cvc5', 'cvc5-int'), tag='G')
+        if rp.status == 'sat':
+            model = decode_g_model(rp.output, labels, verifier.ex)
+            return {'status': 'sat', 'model': model, 'solver': rp.solver, 'ms': rp.ms, 'note': vc.note,
+                    'trace': vc.trace[-8:], 'solver_output': rp.output[:6000], 'K': K, 'L': L}
         q, labels = g_query(verifier, vc, K, L)
         r = None
         if '(declare-fun str_lower (String) String)' in q:
@@ -777,11 +812,11 @@ def g_search(verifier, ob, K=4, L=3, timeout_s=30):
             # (equal to Python's on ASCII text); the native replay stays the judge.
             q2 = q.replace('(declare-fun str_lower (String) String)',
                            '(define-fun str_lower ((s String)) String (str.to_lower s))')
-            r = solve.check(q2, timeout_s, ('cvc5',), tag='G')
+            r = solve.check(q2, timeout_s, ('cvc5', 'cvc5-int'), tag='G')
             if r.status != 'sat':
                 r = None
         if r is None:
-            r = solve.check(q, timeout_s, ('z3new', 'cvc5'), tag='G')
+            r = solve.check(q, timeout_s, ('z3new', 'cvc5', 'cvc5-int'), tag='G')
         if r.status == 'sat':
             model = decode_g_model(r.output, labels, verifier.ex)
             return {'status': 'sat', 'model': model, 'solver': r.solver, 'ms': r.ms, 'note': vc.note,
